@@ -109,6 +109,23 @@ def catalogue():
     C('tree_walk', lambda A: list(A['t'].walk()))
     C('constant', lambda A: [(constant.evaluate(t[2]), constant.type(t[2]), constant.quote(t[2]))
                              for t in A['g'].attributes() if isinstance(t[2], str) or t[2] is None])
+    # calls on the MODEL object that is shared by everything else (its answers must not depend on earlier calls)
+    def model_probe(A):
+        m, out = A['m'], []
+        for t in list(A['g'].triples)[:6] + [('a', ':zz-undefined', 'b'), ('a', ':mod', 'b')]:
+            try:
+                out.append(('reify', m.reify(t)))
+            except Exception as e:       # noqa
+                out.append(('reify-exc', type(e).__name__))
+            out.append((m.is_role_reifiable(t[1]), m.has_role(t[1]), m.is_role_inverted(t[1]), m.invert_role(t[1]),
+                        m.canonicalize_role(t[1]), m.is_concept_dereifiable(t[2])))
+        return out
+    C('model_probe', model_probe)
+    C('model_eq_fresh', lambda A: (A['m'] == type(A['m'])(roles=A['m'].roles, normalizations=A['m'].normalizations,
+                                   reifications=[(r, c, s, t) for r, rows in A['m'].reifications.items() for c, s, t in rows]),
+                                   sorted(A['m'].reifications), sorted(A['m'].dereifications)))
+    # a transformed graph (more POPs than open contexts after dereification) serialised as is
+    C('reify_dereify_encode', lambda A: penman.encode(transform.dereify_edges(transform.reify_edges(A['g'], A['m']), A['m']), model=A['m']))
     # documented in-place operations: determinism only
     C('rearrange', lambda A: (layout.rearrange(A['t'], key=A['m'].canonical_order, attributes_first=True), A['t'])[1], inplace=True)
     C('reset_variables', lambda A: (A['t'].reset_variables('{prefix}{i}'), A['t'])[1], inplace=True)
@@ -205,6 +222,21 @@ def one_case(args):
             if run_call(cat[name][0], B) != ref[name]:
                 findings.append(('copied-arguments', f'{name} on {how}-copied arguments differs', dict(case0, call=name, how=how)))
                 B = {k: (conv(v) if k != 'm' else v) for k, v in make_args(seed, idx).items()}
+    # 5. a TRANSFORMED graph (dereification leaves superfluous POPs) must serialise the same after a deep copy / pickling
+    from penman import transform
+    import penman
+    for how, conv in (('deepcopy', copy.deepcopy), ('pickle', lambda x: pickle.loads(pickle.dumps(x)))):
+        B = make_args(seed, idx)
+        try:
+            # decode the REIFIED text, then dereify: the collapsed nodes leave more POPs than open contexts
+            reified_text = penman.encode(transform.reify_edges(B['g'], B['m']), model=B['m'])
+            h = transform.dereify_edges(penman.decode(reified_text, model=B['m']), B['m'])
+            want = penman.encode(h, model=B['m'])
+            got = run_call(lambda A: penman.encode(conv(h), model=B['m']), B)
+        except Exception as e:       # noqa
+            continue
+        if got != want:
+            findings.append(('copied-arguments', f'encode of a reified+dereified graph differs after {how}', dict(case0, how=how)))
     return findings, digests
 
 
